@@ -412,6 +412,15 @@ def sampling_rules(chk, repo, clause):
             if all(isinstance(x, (Poly, Const)) for x in parts) and \
                     all(a[0] == 'sym' or is_app(a, vocabulary) for x in parts if isinstance(x, Poly) for a in x.atoms(deep=True)):
                 ok_i = False        # the same building blocks put together differently: another set of samples
+            elif isinstance(r, nf.Slice) and any(
+                    is_app(a, ('floor', 'ceil', 'round', 'rint', 'fix', 'trunc')) and isinstance(a[2][0], Poly) and
+                    any(e < 0 for m_, _c in a[2][0].terms for _a, e in m_)
+                    for x in parts if isinstance(x, Poly) for a in nf.value_atoms(x)):
+                # slots computed as floor / ceil of (wavelength - start)/step: the quotient of floating-point wavelengths
+                # comes out one rounding unit below or above the integer it stands for, and then the end sample of an
+                # operand (the end of the common range included) is left at the fill value - in some units and not in others
+                ok_i = False
+                det_i = 'membership decided by a rounded quotient, not by comparing wavelengths: ' + det_i[:140]
     chk.ob(clause, 'T-comparison', f.key, 'samples of the common grid inside the closed range of the operand', ok_i, det_i, f.loc())
     f, paths, _ = analyse(repo, 'radiometry._sampling', config={'method': Const('min')})
     wave = S('wave')
